@@ -295,9 +295,15 @@ def check_profile(name, out, rc, err):
     hdr_lines = [l for l in lines if l.startswith("hdr ")]
     lay = [l for l in lines if l.startswith("lay ")]
     end = [l for l in lines if l.startswith("end ")]
+    for l in lay:
+        if not l.endswith(" ok"):
+            raise CheckFailure("[%s] %s" % (name, l))
     if not hdr_lines or not end:
-        raise CheckFailure("[%s] layout probe produced no hdr/end line (exit %s): %s"
-                           % (name, rc, (err.strip().splitlines() or ["<no stderr>"])[-1]))
+        types = [l for l in lines if l.startswith("type ")]
+        where = (" while probing %s" % types[-1][5:]) if types else ""
+        how = ("killed by signal %d" % -rc) if rc < 0 else ("exit %s" % rc)
+        raise CheckFailure("[%s] layout probe did not finish (%s)%s: %s"
+                           % (name, how, where, (err.strip().splitlines() or ["<no stderr>"])[-1]))
     for l in lay:
         if not l.endswith(" ok"):
             raise CheckFailure("[%s] %s" % (name, l))
